@@ -203,9 +203,11 @@ class Interp:
         self.depth += 1
         if self.depth > self.MAX_DEPTH:
             raise AnalysisError("circuit evaluation: inlining depth exceeded")
+        if not hasattr(self, "frames"):
+            self.frames = []
+        self.frames.append((fn, m, self_obj))
         try:
             env: Dict[str, Any] = {}
-            params = A.param_names(fn)
             a = fn.args
             pos = [x.arg for x in a.posonlyargs + a.args]
             vals = list(args)
@@ -214,8 +216,21 @@ class Interp:
                 pos = pos[1:]
             for p, v in zip(pos, vals):
                 env[p] = v
+            if len(vals) > len(pos):
+                if a.vararg is None:
+                    raise EvalRaise("TypeError", f"{fn.name}() takes {len(pos)} positional arguments but {len(vals)} were given")
+                env[a.vararg.arg] = tuple(vals[len(pos):])
+            elif a.vararg is not None:
+                env[a.vararg.arg] = ()
+            named = set(pos) | {x.arg for x in a.kwonlyargs}
+            extra = {}
             for k, v in kwargs.items():
-                env[k] = v
+                if k in named or a.kwarg is None:
+                    env[k] = v  # (a keyword the function does not declare is bound all the same: rules pass model arguments by name)
+                else:
+                    extra[k] = v
+            if a.kwarg is not None:
+                env[a.kwarg.arg] = extra
             defaults = dict(zip([x.arg for x in (a.posonlyargs + a.args)][len(a.posonlyargs + a.args) - len(a.defaults):], a.defaults))
             for p, d in defaults.items():
                 if p not in env:
@@ -230,6 +245,48 @@ class Interp:
             return None
         finally:
             self.depth -= 1
+            self.frames.pop()
+
+    def _defining_class(self, fn):
+        """the class of the repository whose body holds this function definition"""
+        cache = getattr(self.repo, "_nqsa_fn_owner", None)
+        if cache is None:
+            cache = {}
+            for mod in self.repo.modules.values():
+                for c in mod.classes.values():
+                    for st in c.node.body:
+                        if isinstance(st, (ast.FunctionDef, ast.AsyncFunctionDef)):
+                            cache[id(st)] = c
+            self.repo._nqsa_fn_owner = cache
+        return cache.get(id(fn))
+
+    def super_call(self, name, args, kwargs, node):
+        """super().name(...) inside a method: the next definition of `name` after the defining class in the receiver's MRO.  When the
+        chain leaves the repository at ctypes.Structure, __init__ is the positional / keyword initialisation of the declared fields."""
+        if not getattr(self, "frames", None):
+            raise AnalysisError("circuit evaluation: super() outside a method")
+        fn, m, self_obj = self.frames[-1]
+        owner = self._defining_class(fn)
+        recv = self_obj[1] if isinstance(self_obj, tuple) and self_obj and self_obj[0] == "class" else getattr(self_obj, "cls", None)
+        if owner is None or recv is None:
+            raise AnalysisError("circuit evaluation: super() in a function whose class is not known")
+        mro = self.repo.mro(recv)
+        if owner not in mro:
+            raise AnalysisError("circuit evaluation: super() with a receiver outside the defining class")
+        for k in mro[mro.index(owner) + 1:]:
+            if name in k.methods:
+                return self.call_function(k.module, k.methods[name], args, kwargs, self_obj=self_obj)
+        if name == "__init__" and self.ev.is_struct(recv) and isinstance(self_obj, Obj):
+            from . import wire
+            names = [f[0] for f in wire.struct_fields(self.ev, recv)]
+            if len(args) > len(names) or any(k not in names for k in kwargs):
+                raise EvalRaise("TypeError", "too many initializers")
+            for n_, v_ in list(zip(names, args)) + list(kwargs.items()):
+                self_obj.fields[n_] = v_
+            return None
+        if name in ("__init__", "__post_init__"):
+            return None  # object.__init__ and friends
+        raise AnalysisError(f"circuit evaluation: super().{name} leaves the repository")
 
     # -- statements -------------------------------------------------------
     def block(self, stmts, env, m):
@@ -775,6 +832,10 @@ class Interp:
                         if al is not None and al in o.fields:
                             return o.fields[al]
                         return self.call_function(r[0].module, r[1], [], {}, self_obj=o)  # a computed property is computed
+                    if r is None:
+                        la = self.repo.lookup_attr(o.cls, attr)
+                        if la is not None and la[2] is not None:
+                            return self.eval(la[2], {}, la[0].module)  # a class attribute read through the instance
                 return ("boundmethod", o, attr)
             if o.kind in ("qubit", "future"):
                 if attr in ("_conn", "connection"):
@@ -911,7 +972,21 @@ class Interp:
             ts = t if isinstance(t, tuple) and t and isinstance(t[0], tuple) else (t,)
             return any(self.isinstance(o, x) for x in ts)
         if fname == "super":
-            raise AnalysisError("super() in circuit code")
+            raise AnalysisError("super() used other than as super().method(...)")
+        if isinstance(e.func, ast.Attribute) and isinstance(e.func.value, ast.Call) and dotted(e.func.value.func) == "super" and not e.func.value.args:
+            args = []
+            for a in e.args:
+                if isinstance(a, ast.Starred):
+                    args.extend(self.eval(a.value, env, m))
+                else:
+                    args.append(self.eval(a, env, m))
+            kwargs = {}
+            for k in e.keywords:
+                if k.arg is None:
+                    kwargs.update(self.eval(k.value, env, m))
+                else:
+                    kwargs[k.arg] = self.eval(k.value, env, m)
+            return self.super_call(e.func.attr, args, kwargs, e)
         f = self.eval(e.func, env, m)
         args = []
         for a in e.args:
@@ -919,7 +994,15 @@ class Interp:
                 args.extend(self.eval(a.value, env, m))
             else:
                 args.append(self.eval(a, env, m))
-        kwargs = {k.arg: self.eval(k.value, env, m) for k in e.keywords if k.arg is not None}
+        kwargs = {}
+        for k in e.keywords:
+            if k.arg is None:
+                d_ = self.eval(k.value, env, m)
+                if not isinstance(d_, dict):
+                    raise AnalysisError(f"circuit evaluation: ** of {type(d_).__name__}")
+                kwargs.update(d_)
+            else:
+                kwargs[k.arg] = self.eval(k.value, env, m)
         return self.apply(f, args, kwargs, e, m)
 
     def isinstance(self, o, t) -> bool:
